@@ -72,7 +72,16 @@ type TypeInv struct {
 	Pkg      string
 }
 
+// Monitor: a mutex field of a struct type protects other fields of the same value
+type Monitor struct {
+	TypeName   string   // pkg.Type
+	Lock       string   // field name of the mutex
+	Protects   []string // field names
+	InsertOnly []string // protected map fields whose entries are never overwritten or deleted
+}
+
 type ContractSet struct {
+	monitors []*Monitor
 	invs   map[string][]*TypeInv // type name (pkg.Name) -> invariants
 	nonnil map[string]bool        // "pkg::type text" -> elements of this type in pre-existing containers are non-nil
 	funcs  map[string]*Contract
@@ -84,7 +93,7 @@ type ContractSet struct {
 }
 
 var clauseKeywords = map[string]bool{"func": true, "interface": true, "spec": true, "abstract": true, "requires": true, "ensures": true,
-	"assigns": true, "loop": true, "decreases": true, "arith": true, "pure": true, "lemma": true, "trusted": true, "noframe": true, "invariant": true, "nonnil": true, "names": true, "ospec": true, "checks": true, "counted": true, "axiom": true}
+	"assigns": true, "loop": true, "decreases": true, "arith": true, "pure": true, "lemma": true, "trusted": true, "noframe": true, "invariant": true, "nonnil": true, "names": true, "ospec": true, "checks": true, "counted": true, "axiom": true, "monitor": true}
 
 func loadContracts(files []string) (*ContractSet, error) {
 	cs := &ContractSet{funcs: map[string]*Contract{}, ifaces: map[string]*Contract{}, specs: map[string]*specFn{}, invs: map[string][]*TypeInv{}, nonnil: map[string]bool{}}
@@ -186,6 +195,28 @@ func (cs *ContractSet) loadFile(path string) error {
 			}
 			ti := &TypeInv{TypeName: strings.TrimSpace(rest[:lp]), Var: strings.TrimSpace(rest[lp+1 : rp]), Body: ex, Pkg: pkg}
 			cs.invs[pkg+"."+ti.TypeName] = append(cs.invs[pkg+"."+ti.TypeName], ti)
+			cur = nil
+		case "monitor":
+			// monitor T.lockField protects f1, f2 insert-only f1
+			f := strings.Fields(strings.ReplaceAll(rest, ",", " "))
+			if len(f) < 3 || f[1] != "protects" || !strings.Contains(f[0], ".") {
+				return fail(fmt.Errorf("expected: monitor T.lock protects f1, f2 [insert-only f]"))
+			}
+			tl := strings.SplitN(f[0], ".", 2)
+			mon := &Monitor{TypeName: pkg + "." + tl[0], Lock: tl[1]}
+			mode := "p"
+			for _, w := range f[2:] {
+				if w == "insert-only" {
+					mode = "i"
+					continue
+				}
+				if mode == "p" {
+					mon.Protects = append(mon.Protects, w)
+				} else {
+					mon.InsertOnly = append(mon.InsertOnly, w)
+				}
+			}
+			cs.monitors = append(cs.monitors, mon)
 			cur = nil
 		case "nonnil":
 			cs.nonnil[pkg+"::"+strings.TrimSpace(rest)] = true
